@@ -11,6 +11,7 @@ require (
 
 require (
 	github.com/goose-lang/primitive v0.1.0 // indirect
+	github.com/pkg/errors v0.9.1 // indirect
 	golang.org/x/mod v0.19.0 // indirect
 	golang.org/x/sync v0.7.0 // indirect
 )
